@@ -91,9 +91,10 @@ def sweep_centre_rule(chk, src):
             start = 0 if to_right else n - 1
             stops = [None] + ([k for k in range(1, n)] if to_right else [k for k in range(n - 2, -1, -1)])
             for stop in stops:
-                me = Sym("self", site_num=n, qnidx=start, to_right=to_right, centre=start)
+                me = Sym("self", _cls="MatrixProduct", site_num=n, qnidx=start, to_right=to_right, centre=start)
                 probs = []
-                it = SymInterp(src, None, {})
+                from .chain_rules import class_resolver
+                it = SymInterp(src, class_resolver(src, {"MatrixProduct": MP}), {})
 
                 def push(idx, me=me, probs=probs):
                     if idx != me.centre:
